@@ -213,7 +213,19 @@ def _validate_batch(traces, diag=False, timeout=1800, spec=None):
             env["DIAG"] = "1"
         if spec.get("waive"):
             env["WAIVE"] = spec["waive"]
-        r = run_tlc(spec["module"], cfg=cfgp, env=env, workers=1, timeout=timeout, heap="4g")
+        try:
+            r = run_tlc(spec["module"], cfg=cfgp, env=env, workers=1, timeout=timeout, heap="4g")
+        except TLCError as ex:
+            # TLC could not EVALUATE a trace (a recorded field has a value of a kind the specification cannot compare:
+            # None where a number belongs, a float counter, ...).  That is a property of the recorded run, not of the
+            # machinery: treat the batch as violated so that it is bisected down to the offending trace, which is then
+            # reported as not evaluable.  (A time-out or a parse error of the specification is still a machinery failure.)
+            msg = str(ex)
+            if "timeout" in msg or "Parsing or semantic analysis failed" in msg or len(traces) == 0:
+                raise
+            from harness.tlc import TLCResult
+            r = TLCResult(out=msg, wall_s=0.0, rc=1, cmd="")
+            r.update(generated=0, distinct=0, depth=None, violated="TRACE-NOT-EVALUABLE", kind="invariant", ok=False, printed=[])
         return r
     finally:
         shutil.rmtree(d, ignore_errors=True)
@@ -271,6 +283,11 @@ def diagnose(trace, spec=None):
     """validate one trace alone: longest matched prefix, the first unexplainable event and the names of
     the specification clauses that are false for it (or the violated invariant)"""
     r = _validate_batch([trace], diag=True, spec=spec)
+    if r.violated == "TRACE-NOT-EVALUABLE":
+        import re
+        m = re.search(r"^Error: .*$|attempted to .*$|Attempted to .*$", r.out, re.M)
+        return {"reason": "not-evaluable", "at": None, "event": None, "prev": None,
+                "failing": ["event-not-enabled:trace-not-evaluable(%s)" % ((m.group(0) if m else "TLC evaluation error")[:120])]}
     if r.violated and r.kind in ("invariant", "action-property"):
         import re
         nstates = len(re.findall(r"^State \d+:", r.out, re.M))
